@@ -7,6 +7,7 @@ import (
 	"io/fs"
 	"path"
 	"path/filepath"
+	"strconv"
 
 	"github.com/pojntfx/stfs/internal/converters"
 	"github.com/pojntfx/stfs/internal/records"
@@ -130,8 +131,17 @@ func Fetch(
 			return err
 		}
 
-		if _, err := io.Copy(dstFile, verifier); err != nil {
+		restored, err := io.Copy(dstFile, verifier)
+		if err != nil {
 			return err
+		}
+
+		// A member that has been cut short must not pass for a shorter one; not every decoder reports a stream that
+		// ends before its first byte (or between two frames) as an error
+		if uncompressedSize, ok := hdr.PAXRecords[records.STFSRecordUncompressedSize]; ok {
+			if size, err := strconv.ParseInt(uncompressedSize, 10, 64); err == nil && restored != size {
+				return io.ErrUnexpectedEOF
+			}
 		}
 
 		if err := verify(); err != nil {
